@@ -220,3 +220,7 @@ Section Kdf.
   Definition keystore_key (text : list Z) : res (list Z) :=
     do c <- keystore_plan text; Ok (pbkdf2 KDF_HASH (k_password c) (k_salt c) KDF_ITER).
 End Kdf.
+
+(* view printed by the correspondence *)
+Definition keystore_plan_view (text : list Z) :=
+  res_map (fun c => (k_id c, k_password c, k_salt c)) (keystore_plan text).
